@@ -272,10 +272,11 @@ def r4_tag_gate(ctx):
         cfg = cfg_of(f.node)
         dl = [enclosing_stmt(c) for c in self_calls(f.node, {'_download_snapshot_threadsafe', '_download_threadsafe', '_download', '_get_cached'})]
         ctx.floor('C06.R4', 'download call in the loader entry', len(dl))
-        tag_ifs = [n for n in walk_local(f.node) if isinstance(n, ast.If) and _is_tag_guard(n.test) and any(isinstance(s, (ast.Return, ast.Raise, ast.Continue)) for s in n.body)]
+        from .guards import guard_edges
+
+        _skip, tag_pass, tag_found = guard_edges(f.node, kinds=('tag',))
         for st in dl:
-            g = [x for n in tag_ifs for x in _false_nodes(cfg, n)]
-            ok = bool(g) and all(cfg.set_dominates(g, x) for x in cfg.nodes_of(st, 'stmt'))
+            ok = bool(tag_pass) and all(cfg.set_dominates(tag_pass, x) for x in cfg.nodes_of(st, 'stmt'))
             ctx.check(
                 ok,
                 'C06.R4',
@@ -284,12 +285,9 @@ def r4_tag_gate(ctx):
                 'snapshot loader: download / cache read is reachable only after the ownership-tag test passed',
                 'snapshot loader: a snapshot can be read (from the backend or the cache) without passing the ownership-tag test - snapshots of other key families are loaded',
             )
-        # in encrypted mode the guard must actually test the tag: it may only be conjoined with the `encrypted` flag
-        for n in tag_ifs:
-            t = n.test
-            conj = t.values if isinstance(t, ast.BoolOp) and isinstance(t.op, ast.And) else [t]
-            extra = [c for c in conj if not _is_tag_guard(c) and not (isinstance(c, ast.Attribute) and c.attr == 'encrypted')]
-            ctx.check(not extra, 'C06.R4', f'{func_label(f)}|tag-test-unconditional-when-encrypted', loc(f, n), 'the tag test is applied whenever the repository is encrypted', f'the tag test is weakened by an extra condition: {src(extra[0]) if extra else ""}')
+        # in encrypted mode the guard must actually test the tag: it may only be combined with the `encrypted` flag
+        for n, c in tag_found:
+            ctx.check(c['exact'], 'C06.R4', f'{func_label(f)}|tag-test-unconditional-when-encrypted', loc(f, n), 'the tag test is applied whenever the repository is encrypted', f'the tag test is weakened by an extra condition: {src(n.test, 80)}')
     # cache reads elsewhere in the chain must also sit behind the gate: _get_cached is called only by functions reached from the gated call
     cls = repo_cls(corpus)
     for m in cls.methods.values():
@@ -305,12 +303,15 @@ def r4_tag_gate(ctx):
     fn, loop, var, adds = _clean_roles(corpus)
     cfg = cfg_of(fn.node)
     enc_ifs = [n for n in walk_local(loop) if isinstance(n, ast.If) and any(isinstance(a, ast.Attribute) and a.attr == 'encrypted' for a in ast.walk(n.test))]
-    tag_ifs = [n for n in walk_local(loop) if isinstance(n, ast.If) and _is_tag_guard(n.test) and any(isinstance(s, (ast.Continue, ast.Return, ast.Raise)) for s in n.body)]
+    from .guards import guard_edges
+
+    _skip, tag_pass, tag_found = guard_edges(fn.node, kinds=('tag',), within=loop)
     for a in adds:
         st = enclosing_stmt(a)
-        g = [x for n in tag_ifs for x in _false_nodes(cfg, n)]
-        g += [x for n in enc_ifs if not _is_tag_guard(n.test) for x in _false_nodes(cfg, n)]
-        ok = bool(tag_ifs) and all(cfg.set_dominates(g, x) for x in cfg.nodes_of(st, 'stmt'))
+        # reached only with a verified tag, or (not encrypted) through the false edge of an `if encrypted:` that holds the test
+        g = list(tag_pass)
+        g += [x for n in enc_ifs if not any(n is t for t, _c in tag_found) for x in _false_nodes(cfg, n)]
+        ok = bool(tag_found) and all(cfg.set_dominates(g, x) for x in cfg.nodes_of(st, 'stmt'))
         ctx.check(
             ok,
             'C06.R4',
